@@ -12,7 +12,7 @@ RULE = ("seeded scenarios (all objective families, N=1..5, boxes of every kind, 
         "trial count, number of moments).")
 ASSUMPTIONS = ["evaluated at quiescent points of the global phase; after Solve only when refineSolution=False (refinement deliberately rewrites the optimum in place)",
                "interval lengths compared within 4 ulp of libm pow", "stored point compared bitwise with a fresh Evolvent of the same bounds and density"]
-SIZES = {"quick": 260, "thorough": 2600}
+SIZES = {"quick": 320, "thorough": 6000}
 
 _insert_stats = {"calls": 0, "bad": []}
 _wrapped = False
